@@ -156,6 +156,10 @@ pub fn alphabet(sc: &Scope, asks: &[(String, AskOrderV1)], bids: &[(String, BidO
         // the id is taken
         v.push(ex(sc.seller, funds_for(sc, &info.base_denom, sizes[0]), ExecuteMsg::CreateAsk { id: s(A1), base: info.base_denom.clone(), quote: quote.clone(), price: s(sc.ask_prices[0]), size: Uint128::new(sizes[0]) }));
     }
+    // an id that is taken on the *other* side of the book is free on this one
+    if hasb(B1) && !has(B1) {
+        v.push(ex(sc.seller, funds_for(sc, &info.base_denom, sizes[0]), ExecuteMsg::CreateAsk { id: s(B1), base: info.base_denom.clone(), quote: quote.clone(), price: s(sc.ask_prices[0]), size: Uint128::new(sizes[0]) }));
+    }
     if !has(A2) {
         for sz in sizes {
             v.push(ex(sc.seller2, funds_for(sc, "conv1", sz), ExecuteMsg::CreateAsk { id: s(A2), base: s("conv1"), quote: quote.clone(), price: s(sc.ask_prices[1]), size: Uint128::new(sz) }));
@@ -163,8 +167,8 @@ pub fn alphabet(sc: &Scope, asks: &[(String, AskOrderV1)], bids: &[(String, BidO
     }
     // create bids
     let rate = info.bid_fee_info.as_ref().and_then(|f| D::parse(&f.rate));
-    for (id, prices) in [(B1, &sc.bid_prices[..]), (B2, &sc.bid_prices[..1])] {
-        if hasb(id) {
+    for (id, prices) in [(B1, &sc.bid_prices[..]), (B2, &sc.bid_prices[..1]), (A1, &sc.bid_prices[..1])] {
+        if hasb(id) || (id == A1 && !has(A1)) {
             continue;
         }
         for p in prices {
